@@ -83,6 +83,8 @@ var (
 	tAnnAsI = u.F("tAnnAsI", "", "{{A@n}}", u.As("IA"))
 	tABasI  = u.F("tABasI", "", "{A;{A@n}}", u.As("IA", "IAB"))
 	tAB2    = u.F("tAB2", "", "{A;{A@n}}")
+	tIown2  = u.F("tIown2", "", "{IAB}", u.As("IAB", "IA")) // the field's own type is one of the listed interfaces
+	tIownN  = u.F("tIownN", "", "{{IAB@n}}", u.As("IA", "IAB"))
 	// probes
 	qI      = u.F("qI", "IA", "")
 	qII     = u.F("qII", "IAB", "")
@@ -125,6 +127,7 @@ func c09Units(tier string) []Unit {
 	add("tags-and-nesting", tags, 3)
 	add("duplicates", dups, 3)
 	add("as-on-result-objects", []*uFunc{tA, tAasI, tAasIAB, tAnn, tAnnAsI, tABasI, tAB2}, 3)
+	add("as-on-interface-fields", []*uFunc{tIown2, tIownN, kIplain, kIboth}, 3)
 	if !q {
 		add("options-4", []*uFunc{kA, kAn, kAg, kAasI, kAnAsI, kAgAsI}, 4)
 		add("mixed-4", []*uFunc{kA, kIboth, kIgBoth, tAnn, tAAn, tAasAA}, 4)
